@@ -227,12 +227,13 @@ def normalize_period(per: TimeDelta) -> np.timedelta64:
     #    return per.astype("m8[s]")
 
     if isinstance(per, (list, tuple)):  # [value, unit] from yaml
-        units = dict(s="s", m="m", h="h", d="D", D="D")  # numpy has D for days
+        units = dict(s="s", m="m", h="h", d="D", D="D", W="W")  # numpy has D for days
         try:
             value, unit = per
         except (TypeError, ValueError) as exc:
             raise ValueError(f"{per} is not a valid time period") from exc
-        if isinstance(value, int) and not isinstance(value, bool) and unit in units:
+        number = isinstance(value, int) and not isinstance(value, bool)
+        if number and isinstance(unit, str) and unit in units:
             return np.timedelta64(np.timedelta64(value, units[unit]), "s")
         raise ValueError(f"{per} is not a valid time period")
 
